@@ -136,7 +136,24 @@ func c08Gen(rng *verifsim.RNG, idx int, tier string) *Plan {
 		p.Faults = append(p.Faults, Fault{Seam: "read.post", From: at - 1000, Count: 1, Lat: d + int64(rng.Dur(time.Millisecond, 600*time.Millisecond))})
 		p.Actions = append(p.Actions, rsAction(at, []string{hostAddr(2), "::"}[rng.Intn(2)]))
 	}
-	p.Actions = append(p.Actions, Action{At: stop, Kind: "signal", Sig: sig})
+	if rng.Bool(0.1) {
+		// a burst of solicitations is sitting in the socket in the very instant of
+		// the stop: more of them than the advertiser's request queue holds, so
+		// the listener is waiting for room in it when everybody is told to go
+		p.Class += "+burst-then-stop"
+		biasQueueFull(rng, p)
+		a := rsAction(stop, []string{hostAddr(3), "::"}[rng.Intn(2)])
+		a.N = rng.Range(17, 40)
+		if rng.Bool(0.5) {
+			a.Then = &Action{Kind: "signal", Sig: sig}
+			p.Actions = append(p.Actions, a)
+		} else {
+			// (the order in which the two become runnable is the other way round)
+			p.Actions = append(p.Actions, Action{At: stop, Kind: "signal", Sig: sig, Then: &a})
+		}
+	} else {
+		p.Actions = append(p.Actions, Action{At: stop, Kind: "signal", Sig: sig})
+	}
 	if rng.Bool(0.1) {
 		// a second signal while shutting down
 		p.Actions = append(p.Actions, Action{At: stop + int64(rng.Dur(0, time.Second)), Kind: "signal", Sig: []string{"SIGTERM", "SIGHUP"}[rng.Intn(2)]})
